@@ -22,7 +22,7 @@ From SK Require Import Base.Prelude Base.F64 Base.F64Proofs Mapping.Glue Mapping
 
 Local Notation finite x := (is_finite 53 1024 x = true).
 Local Notation val x := (B2R 53 1024 x).
-Local Notation normal_pos x := (is_finite 53 1024 x = true /\ (bpow radix2 (-1022) <= B2R 53 1024 x)%R).
+Local Notation normal_pos x := (is_finite 53 1024 x = true /\ Rle (bpow radix2 (-1022)) (B2R 53 1024 x)).
 Local Notation expo x := (mag radix2 (B2R 53 1024 x) - 1)%Z.
 Local Notation sig1 x := (get_significand_plus_one (bits_of_f64 x)).
 Local Notation gofloor a := (if fle f64_zero a then int_of_f a else int_of_f a - 1).
@@ -125,6 +125,13 @@ Theorem G_lin_approx_log_mono (L : libm) (x y : f64) :
 Proof. exact (approx_log_lin_mono L x y). Qed.
 Print Assumptions G_lin_approx_log_mono.
 
+(* ... but it is e + (m - 1) up to 2^-42 (each rounding acts on a real of magnitude < 2^11) *)
+Theorem G_lin_approx_log_error (L : libm) (x : f64) :
+  normal_pos x ->
+  (Rabs (val (approx_log L MLin x) - (IZR (expo x) + (val (sig1 x) - 1))) <= bpow radix2 (-42))%R.
+Proof. exact (approx_log_lin_err L x). Qed.
+Print Assumptions G_lin_approx_log_error.
+
 (* exact on powers of two *)
 Theorem G_lin_approx_log_pow2 (L : libm) (x : f64) :
   normal_pos x -> val (sig1 x) = 1%R -> val (approx_log L MLin x) = IZR (expo x).
@@ -196,29 +203,48 @@ Proof. exact (log_index_mono_bounded L m x y). Qed.
 Print Assumptions G_log_index_mono_bounded.
 
 (* ------------------------------------------------------------------ *)
-(* 5. cubic mapping: PARTIAL                                           *)
+(* 5. cubic mapping: approximateLog and Index are monotone             *)
 (* ------------------------------------------------------------------ *)
-(* approximateLog = ((A s + B) s + C) s + e evaluated by Horner's rule in floating point with B < 0:
-   within one binade it is not a composition of monotone steps, and no float-level monotonicity in s
-   is claimed.  What composes: two values with the SAME significand (x = y * 2^k) get the same
-   polynomial value, and the final addition is monotone in e.  GAP: monotonicity of Index in the
-   significand at fixed exponent is not proved (it needs a rounding-error analysis of the Horner
-   evaluation against the derivative of the cubic, >= 0.72 on [0,1)). *)
-Theorem G_cub_approx_log_mono_partial (L : libm) (x y : f64) :
-  normal_pos x -> normal_pos y -> sig1 x = sig1 y -> (val x <= val y)%R ->
-  finite (approx_log L MCub x) -> finite (approx_log L MCub y) ->
-  (val (approx_log L MCub x) <= val (approx_log L MCub y))%R.
-Proof. exact (approx_log_cub_mono_same_significand L x y). Qed.
-Print Assumptions G_cub_approx_log_mono_partial.
+(* approximateLog = ((A s + B) s + C) s + e by Horner's rule, s = significandPlusOne - 1 (exact),
+   A = cA = 6/35, B = cB = -3/5 < 0, C = cC = 10/7 rounded to binary64: six roundings. *)
+Theorem G_cub_approx_log_value (L : libm) (x : f64) :
+  normal_pos x ->
+  finite (approx_log L MCub x) /\
+  val (approx_log L MCub x) =
+    rnd (rnd (rnd (rnd (rnd (rnd (val cA * (val (sig1 x) - 1)) + val cB) * (val (sig1 x) - 1)) + val cC)
+              * (val (sig1 x) - 1)) + IZR (expo x)) /\
+  (Rabs (val (approx_log L MCub x)) <= 1026)%R.
+Proof. exact (approx_log_cub_value L x). Qed.
+Print Assumptions G_cub_approx_log_value.
 
-Theorem G_cub_index_mono_partial (L : libm) (m : gmap) (x y : f64) :
+(* Within one binade this is NOT a composition of monotone steps ((A s + B) is negative and is
+   multiplied by the increasing s).  It is monotone nevertheless, for all positive normal floats:
+   with d = rnd (rnd ((A s + B) s) + C) one shows, for significands s < s' on the grid 2^-52 Z,
+   d - d' <= 0.6 (s' - s) + 1.25 * 2^-52 < (s' - s) + 2^-52 from the rounding-error bounds, hence
+   d - d' <= s' - s because d, d' >= 1 (this uses A + B + C = 1 + 2^-54 for the ROUNDED constants) are
+   multiples of 2^-52, hence d s <= d' s'.  Across binades: 0 <= polynomial value <= 1. *)
+Theorem G_cub_approx_log_mono (L : libm) (x y : f64) :
+  normal_pos x -> normal_pos y -> (val x <= val y)%R ->
+  (val (approx_log L MCub x) <= val (approx_log L MCub y))%R.
+Proof. exact (approx_log_cub_mono L x y). Qed.
+Print Assumptions G_cub_approx_log_mono.
+
+Theorem G_cub_index_mono (L : libm) (m : gmap) (x y : f64) :
   gm_kind m = MCub -> (0 <= val (gm_mult m))%R ->
-  normal_pos x -> normal_pos y -> sig1 x = sig1 y -> (val x <= val y)%R ->
+  normal_pos x -> normal_pos y -> (val x <= val y)%R ->
   finite (fadd (fmul (approx_log L MCub x) (gm_mult m)) (gm_off m)) ->
   finite (fadd (fmul (approx_log L MCub y) (gm_mult m)) (gm_off m)) ->
   gm_index L m x <= gm_index L m y.
-Proof. exact (cub_index_mono_partial L m x y). Qed.
-Print Assumptions G_cub_index_mono_partial.
+Proof. exact (cub_index_mono L m x y). Qed.
+Print Assumptions G_cub_index_mono.
+
+Theorem G_cub_index_mono_bounded (L : libm) (m : gmap) (x y : f64) :
+  gm_kind m = MCub -> finite (gm_mult m) -> finite (gm_off m) ->
+  (0 <= val (gm_mult m) <= bpow radix2 40)%R -> (Rabs (val (gm_off m)) <= bpow radix2 40)%R ->
+  normal_pos x -> normal_pos y -> (val x <= val y)%R ->
+  gm_index L m x <= gm_index L m y.
+Proof. exact (cub_index_mono_bounded L m x y). Qed.
+Print Assumptions G_cub_index_mono_bounded.
 
 (* ------------------------------------------------------------------ *)
 (* 6. approximateInverseLog / LowerBound of the linear mapping         *)
@@ -321,6 +347,15 @@ Proof. vm_compute. reflexivity. Qed.
 Example G_ex_lin_not_exact_high (L : libm) :
   bits_of_f64 (approx_log L MLin (fb 9214364837600034817)) = 4652209618980700160%N.     (* 1023.0 *)
 Proof. vm_compute. reflexivity. Qed.
+
+(* approximateLog (cubic) at 1.0, 1.5 (0.5857142857142857), 3.75 (1.90546875), 2^-1022, max *)
+Example G_ex_cub_approx_log (L : libm) :
+  bits_of_f64 (approx_log L MCub (fb 4607182418800017408)) = 0%N /\
+  bits_of_f64 (approx_log L MCub (fb 4609434218613702656)) = 4603450864823053283%N /\
+  bits_of_f64 (approx_log L MCub (fb 4615626668101337088)) = 4611260287525113037%N /\
+  bits_of_f64 (approx_log L MCub (fb 4503599627370496)) = 13875572859742453760%N /\      (* -1022 *)
+  bits_of_f64 (approx_log L MCub (fb 9218868437227405311)) = 4652218415073722368%N.      (* 1024 *)
+Proof. vm_compute. repeat split; reflexivity. Qed.
 
 (* the Go floor: 2.5 -> 2, -2.5 -> -3, -2.0 -> -3 (not -2), -0.0 -> 0 *)
 Example G_ex_go_floor :
